@@ -33,6 +33,7 @@ ERR_SHORT = {"UnknownTokenError": "U", "BadNumberError": "B", "UnclosedStringErr
 ERR_LONG = {v: k for k, v in ERR_SHORT.items()}
 
 REGRESSION = ["1.23457e+06", "1.5e999", "1..5", "0x1F", "0b102", "int", "in t", "\"abc", "#2024",
+              "#2024-01-01" + " " * 55 + "# + 1", "#" + "x" * 100 + "#", "#2024-01-01T00:00:00" + " " * 200 + "#", "\"" + "a" * 300 + "\"", "#" + "9" * 64 + "#", "#" + "9" * 65 + "#",
               "0b0b1", "0b0B1", "0x0b1", "15.0e308", "0.0e309", "1.5e308", "1.5e-999", "1...", "1. .5", "1 ..5",
               "instant", "instantx", "instant x", "toé", "to1", "in€", "²", ".²", "1.", "1.e5", "1.5.5", "1e+",
               "1e-5", "10e-1", "1e-0", "0d19", "0x", "0xg", "٣", "一", "\"a\\\"b\"", "\"a\\", "\"\\\"",
